@@ -889,6 +889,7 @@ def suite_trace(tier, seed):
     import subprocess, suite_trace as st
     try:
         d = lib.build_suite()
+        d20 = lib.build_suite('c++20') if tier == 'thorough' else None
     except lib.BuildError as e:
         return dict(error=str(e))
     spec_h = lib.sha_files([os.path.join(lib.SPEC, f) for f in ('Generic.tla', 'TraceGeneric.tla', 'TraceGeneric.cfg')] + [os.path.join(lib.HARNESS, 'suite_trace.py')])
@@ -903,6 +904,8 @@ def suite_trace(tier, seed):
             runs = []
             if os.path.exists(os.path.join(d, 'self_test_g')):
                 runs.append(('self_test', [os.path.join(d, 'self_test_g')], None))
+            if d20 and os.path.exists(os.path.join(d20, 'self_test_g')):
+                runs.append(('self_test_cxx20', [os.path.join(d20, 'self_test_g')], None))     # C++20 build: adds test_co_mock.cpp (mocked coroutines)
             if os.path.exists(os.path.join(d, 'thread_terror_g')):
                 runs.append(('thread_terror', [os.path.join(d, 'thread_terror_g')], 800000 if tier == 'quick' else 4000000))
             for name, cmd, maxl in runs:
@@ -928,9 +931,9 @@ def suite_trace(tier, seed):
                         lo -= 1
                     v['history'] = lines[lo:v['line'] + 2][-120:]
                 out['viol'] += r['viol']
-                if name == 'self_test':
-                    out['events'] = n
-                    out['cases'] = sum(1 for l in open(norm) if '"e":"Case"' in l)
+                if name.startswith('self_test'):
+                    out['events'] += n
+                    out['cases'] += sum(1 for l in open(norm) if '"e":"Case"' in l)
                 else:
                     out['tt_events'] = n
         finally:
